@@ -4,6 +4,7 @@ CONSTANTS
   WithH = FALSE
   MaxIter = 0
   MaxSearch = 0
+  MaxRuns = 0
   Emit = FALSE
 INVARIANTS TraceInv
 POSTCONDITION Accepted
